@@ -7,6 +7,7 @@ package netann
 
 //@ func validateChannelAnn1
 //@   props C20
+//@   bounds-safe
 //@   site return nil: assert ret(Verify, 0) && ret(Verify, 1) && ret(Verify, 2) && ret(Verify, 3)
 //@   site call DataToSign: assert arg(0) == a
 //@   site call DoubleHashB: assert arg(0) == retn(DataToSign, 0) && retn(DataToSign, 1) == nil
@@ -29,11 +30,13 @@ package netann
 //@
 //@ func ValidateChannelAnn
 //@   props C20
+//@   bounds-safe
 //@   ensures result == nil ==> (typeis(a, *lnwire.ChannelAnnouncement1) && ret(validateChannelAnn1) == nil) ||
 //@           (typeis(a, *lnwire.ChannelAnnouncement2) && ret(validateChannelAnn2) == nil)
 //@
 //@ func verifyChannelUpdate1Signature
 //@   props C20
+//@   bounds-safe
 //@   site return nil: assert ret(Verify)
 //@   site call DataToSign: assert arg(0) == msg
 //@   site call DoubleHashB: assert arg(0) == retn(DataToSign, 0) && retn(DataToSign, 1) == nil
@@ -42,6 +45,7 @@ package netann
 //@
 //@ func VerifyChannelUpdateSignature
 //@   props C20
+//@   bounds-safe
 //@   ensures result == nil ==> (typeis(msg, *lnwire.ChannelUpdate1) && ret(verifyChannelUpdate1Signature) == nil) ||
 //@           (typeis(msg, *lnwire.ChannelUpdate2) && ret(verifyChannelUpdate2Signature) == nil)
 //@   site call verifyChannelUpdate1Signature: assert arg(pubKey) == pubKey
@@ -49,6 +53,7 @@ package netann
 //@
 //@ func ValidateChannelUpdateAnn
 //@   props C20
+//@   bounds-safe
 //@   ensures result == nil ==> ret(ValidateChannelUpdateFields) == nil && ret(VerifyChannelUpdateSignature) == nil
 //@   site call ValidateChannelUpdateFields: assert arg(capacity) == capacity && arg(msg) == a
 //@   site call VerifyChannelUpdateSignature: assert arg(msg) == a && arg(pubKey) == pubKey
@@ -60,6 +65,7 @@ package netann
 //@
 //@ func validateChannelUpdate1Fields
 //@   props C20
+//@   bounds-safe
 //@   requires 0 <= capacity && capacity <= 2100000000000000
 //@   ensures result == nil ==> ret(HasMaxHtlc) && msg.HtlcMaximumMsat != 0 && msg.HtlcMaximumMsat >= msg.HtlcMinimumMsat &&
 //@           (capacity == 0 || msg.HtlcMaximumMsat <= capacity * 1000)
@@ -69,12 +75,14 @@ package netann
 //@ // ---- the double hash of exactly the announcement's signed data, and the fields are consistent
 //@ func ValidateNodeAnn
 //@   props C20
+//@   bounds-safe
 //@   ensures result == nil ==> ret(ValidateNodeAnnFields) == nil && ret(ValidateNodeAnnSignature) == nil
 //@   site call ValidateNodeAnnFields: assert arg(a) == a
 //@   site call ValidateNodeAnnSignature: assert arg(a) == a && ret(ValidateNodeAnnFields) == nil
 //@
 //@ func ValidateNodeAnnSignature
 //@   props C20
+//@   bounds-safe
 //@   site call DataToSign: assert arg(0) == a
 //@   site call ToSignature: assert arg(0) == addr(a.Signature)
 //@   site call ParsePubKey: assert arg(0) == sliceof(a.NodeID)
@@ -85,6 +93,7 @@ package netann
 //@
 //@ func ValidateNodeAnnFields
 //@   props C20
+//@   bounds-safe
 //@   loop * havoc
 //@   site call ValidateDNSAddr: assert arg(0) == dnsAddr.Hostname && arg(1) == dnsAddr.Port
 //@   loop 0 step (prev(hasDNSAddr) ==> hasDNSAddr && !typeis(addr, *lnwire.DNSAddress)) && (typeis(addr, *lnwire.DNSAddress) ==> hasDNSAddr && called(ValidateDNSAddr))
